@@ -213,6 +213,29 @@ theorem C14_durable_sites_atomic :
     ∀ st ∈ Gen.sites, durable st = true → allowedOp st.op = true := by
   decide +kernel
 
+/-- A durable path never disappears and is never rebound other than by the atomic
+writer: every call that removes it, renames it away, truncates it or links
+onto it is one of the explicitly reviewed deletions (DHCP reset deletes the
+lease database; removing a filter list moves its file away) — neither is a
+save, and no save, failed save or change of a list's URL may do such a thing. -/
+theorem C14_durable_paths_never_removed :
+    ∀ st ∈ Gen.sites, durable st = true → st.op ≠ 0 → st.op ≠ 1 → st.reviewed ≠ 0 := by
+  decide +kernel
+
+/-- …and they are exactly the two reviewed calls, each once. -/
+theorem C14_reviewed_removals_exact :
+    ((Gen.sites.filter (fun st => durable st && st.op != 0 && st.op != 1)).map (·.reviewed))
+      = [1, 2] := by
+  decide +kernel
+
+/-- The monitor treats a destination that existed and is gone as a failure at
+that very instant (this is what a rename-away before the download, or a removal
+after a failed save, trips). -/
+theorem C14_disappearance_detected (dest : Path) (c new : Content) (s : FS) (es : List Sys)
+    (h : s.names dest = none) : firstBad dest (some c) new s es = some .visible := by
+  unfold firstBad
+  simp [visibleOK, isVersion, visible, h]
+
 /-- Every pending temporary file is closed on all paths: by a finaliser deferred
 right after its creation (`CloseReplace` or `Cleanup` on every return path), or
 it is the aghrenameio wrapper handing the file to such a caller. -/
